@@ -3,6 +3,7 @@ package main
 import (
 	"fmt"
 	"strconv"
+	"sync/atomic"
 
 	"github.com/fufuok/cache/internal/xsync"
 )
@@ -43,8 +44,9 @@ func (l Layout) hashMapOf(k int) uint64 { return (l.Bucket(k)&0xffffffff)<<7 | (
 // generation has exactly the designed tags). A hash computed for one table and used on another one puts
 // the entry where lookups with the right hash do not find it.
 func seedSequence() func() uint64 {
-	n := uint64(0)
-	return func() uint64 { n++; return n }
+	// atomic: a tree may draw seeds from two goroutines at once (tables allocated before the resize is claimed)
+	var n atomic.Uint64
+	return func() uint64 { return n.Add(1) }
 }
 
 func (l Layout) hashMapSeeded(k int, seed uint64) uint64 {
@@ -372,7 +374,9 @@ func detHash(s string, seed uint64) uint64 {
 // the seed sequence base, base+1, ... (one seed per table generation).
 func installDetHash(base uint64) {
 	n := base
-	xsync.VerifSeed = func() uint64 { n++; return n }
+	var seedCtr atomic.Uint64
+	seedCtr.Store(n)
+	xsync.VerifSeed = func() uint64 { return seedCtr.Add(1) }
 	xsync.VerifHashString = detHash
 	xsync.VerifHasher = func(zero interface{}) interface{} {
 		switch zero.(type) {
